@@ -441,6 +441,9 @@ class IndexLevel:
                 continue
 
             node.index._loc_to_iloc(k)
+            # at a leaf: a key with more elements than the depth is not a label
+            for _ in key_iter:
+                return False
             return True # if above does not raise
 
         return False
